@@ -360,10 +360,26 @@ def ingestEvents (nbArg : Option Nat) (rows : List EvRow) : Except Err (List Eve
   match evCells rows with
   | .error e => .error e
   | .ok l =>
-    if !evConsistent l then .error .eventUnique else
+    if !evConsistent l then .error .eventUnique
+    else if (evFirst l).isEmpty then .error .noRow          -- `len(df_event) == 0`
+    else
     match evCount nbArg (evFirst l) with
     | .error e => .error e
     | .ok nb => .ok (evFirst l, nb)
+
+/-- `not df.index.is_unique` for the `ID` index of the event-only layout -/
+def evIdDup : List EvRow → Bool
+  | [] => false
+  | r :: rs => rs.any (fun s => s.id == r.id) || evIdDup rs
+
+def evHasInf (r : EvRow) : Bool := r.time == .inf || r.code == .inf
+
+/-- `Data.from_dataframe(df, "event")` on a table with valid identifiers and numeric columns:
+    unique index, no ±inf, rows with both cells missing dropped, then the event checks. -/
+def ingestEventTable (nbArg : Option Nat) (rows : List EvRow) : Except Err (List Event × Nat) :=
+  if evIdDup rows then .error .duplicate
+  else if rows.any evHasInf then .error .valueInf
+  else ingestEvents nbArg (rows.filter (fun r => !(r.time == .nan && r.code == .nan)))
 
 /-- `_construct_events`: `event_time[i] = [t] * nb`, `event_bool[i]` one-hot at `code - 1` -/
 def eventTensor (nb : Nat) (e : Event) : List Int × List Bool :=
@@ -397,6 +413,7 @@ def jointCross (evs : List Event) (rows : List Row) : Bool :=
 
 def ingestJoint (dim : Nat) (nbArg : Option Nat) (rows : List JRow) : Except Err (Canon × List Event × Nat) :=
   if rowKeyDup (rows.map (fun r => r.row)) then .error .duplicate else
+  if rows.any (fun r => r.time == .inf || r.code == .inf) then .error .valueInf else
   let kept := rows.filter (fun r => !jDropped r)
   let vis := kept.map (fun r => r.row)
   if vis.isEmpty then .error .noRow
